@@ -54,6 +54,14 @@ extern long gr_name;
                     NREG <= RCAP && NMARK >= OLD(NMARK) && NMARK <= g_top->marks._cap && NSYM == OLD(NSYM) && LOOPS >= OLD(LOOPS)) /*@C01,C03*/ \
   __CPROVER_ensures(g_c >= OLD(GNC) || (GOP(g_c) == OLD(GOP(g_c)) && GPAR(g_c, 0) == OLD(GPAR(g_c, 0)) && GPAR(g_c, 1) == OLD(GPAR(g_c, 1)) && \
                                         GPAR(g_c, 2) == OLD(GPAR(g_c, 2)))) /*@C01*/
+/* MONO of dispatchVoid: on a PROGRAM node it takes back the stop site that ends the code (if any) before generating the program, so
+ * of the code that existed before, exactly one instruction may differ afterwards: a POTENTIAL_BREAK at the very end */
+#define ENS_MONO_V                                                                        \
+  __CPROVER_ensures(GNC >= OLD(GNC) && GNC <= g_gs->out.code._cap && NLAB >= OLD(NLAB) && NLAB <= g_gs->labels._cap && NBP >= OLD(NBP) && \
+                    NBP <= g_gs->backpatching_todo._cap && GNERR >= OLD(GNERR) && GNERR <= g_gs->errors._cap && NREG >= OLD(NREG) && \
+                    NREG <= RCAP && NMARK >= OLD(NMARK) && NMARK <= g_top->marks._cap && NSYM == OLD(NSYM) && LOOPS >= OLD(LOOPS)) /*@C01,C03*/ \
+  __CPROVER_ensures(g_c >= OLD(GNC) || (GOP(g_c) == OLD(GOP(g_c)) && GPAR(g_c, 0) == OLD(GPAR(g_c, 0)) && GPAR(g_c, 1) == OLD(GPAR(g_c, 1)) && \
+                                        GPAR(g_c, 2) == OLD(GPAR(g_c, 2))) || (g_c + 1 == OLD(GNC) && OLD(GOP(g_c)) == OP_POTENTIAL_BREAK)) /*@C01*/
 #define REQ_GC
 /* instruction at i is (op, a, b, c) */
 #define INS3(i, o, a, b, c) (GOP(i) == (o) && GPAR(i, 0) == (a) && GPAR(i, 1) == (b) && GPAR(i, 2) == (c))
